@@ -43,6 +43,24 @@ Theorem C04_item_access_raises_only_allowed : forall fuel root x root' e,
 Proof. exact dict_getitem_raises_allowed. Qed.
 Print Assumptions C04_item_access_raises_only_allowed.
 
+(* The shape of every answer.  A '?'-prefixed path answers a value or '' - never an exception, never the caller's
+   default - through item access, get and first alike ([re], [rl] arbitrary), dict- and list-rooted, for every
+   string after the '?'; get / first without the prefix answer a value or the caller's default, nothing else. *)
+Theorem C04_qmark_yields_value_or_empty : forall fuel root x re rl root' r,
+  dict_get fuel root (63%N :: x) re rl = Ok (root', r) -> r = LEmpty \/ exists v, r = LVal v.
+Proof. exact dict_qmark_yields_value_or_empty. Qed.
+Print Assumptions C04_qmark_yields_value_or_empty.
+
+Theorem C04_list_qmark_yields_value_or_empty : forall fuel root x re rl root' r,
+  list_get fuel root (63%N :: x) re rl = Ok (root', r) -> r = LEmpty \/ exists v, r = LVal v.
+Proof. exact list_qmark_yields_value_or_empty. Qed.
+Print Assumptions C04_list_qmark_yields_value_or_empty.
+
+Theorem C04_get_value_or_default : forall fuel root x rl root' r,
+  dict_get fuel root x false rl = Ok (root', r) -> r = LDefault \/ r = LEmpty \/ exists v, r = LVal v.
+Proof. exact dict_get_value_or_default. Qed.
+Print Assumptions C04_get_value_or_default.
+
 (* "Resolves" = item access returns a value.  Item access has no caller default; the one string on
    which it answers without a value and without raising is '' on a list root (None), never on a dict. *)
 Theorem C04_list_item_access_default_only_empty : forall fuel root x rl root',
